@@ -1,11 +1,153 @@
 (* C11  Wind inversion closes the source-term balance.
-   Only statements; every proof is [exact lemma].  Model: OSU.Model.WindInversion. *)
+   Only statements; every proof is [exact lemma].  Model: OSU.Model.WindInversion
+   (hybrid Newton solver of balance/solvers.py with its bracket state, the inversion driver of
+   balance/wind_inversion.py, the dissipation-weighted direction of balance/dissipation.py).
+   The source terms themselves are inputs of the model ([p_diss], [p_gen]).
+   Global convergence of the solver is NOT a theorem (it is false: see notes/C11.md); the
+   non-degeneracy clause of the property is validated by execution in harness/props/C11.py. *)
 From Coq Require Import Reals List Arith.
 From OSU.Model Require Import WindInversion.
 From OSU.Proofs Require Import WindInversion.
 Import ListNotations.
 Open Scope R_scope.
 
-Theorem bulk_rate_zero_point : forall F newdir diriter guess gdir,
-  u10_from_bulk_rate_point F newdir diriter 0 guess gdir = (Some 0, Some gdir).
-Proof. exact bulk_rate_zero_point. Qed.
+(* ---------------- driver rules ---------------- *)
+
+(* zero integrated dissipation => U10 = 0 (and the direction is still the dissipation direction),
+   with or without direction iteration, whatever the first guess and the generation term *)
+Theorem zero_dissipation_zero_wind : forall g diriter p,
+  diss_bulk (p_diss p) g = 0 ->
+  u10_from_spectra_point g diriter p = (Some 0, Some (diss_direction (p_diss p) (p_k p) g)).
+Proof. exact zero_dissipation_zero_wind. Qed.
+
+(* ... in particular for a dissipation field that vanishes in every bin (any grid, any shape) *)
+Theorem zero_field_zero_wind : forall g diriter p,
+  Forall (Forall (fun v => v = 0)) (p_diss p) ->
+  fst (u10_from_spectra_point g diriter p) = Some 0.
+Proof. exact zero_field_zero_wind. Qed.
+
+(* without direction iteration the reported direction is the dissipation-weighted mean wave direction
+   (also when the wind is zero or missing) *)
+Theorem direction_is_diss_weighted : forall g p,
+  snd (u10_from_spectra_point g false p) = Some (diss_direction (p_diss p) (p_k p) g).
+Proof. exact direction_is_diss_weighted. Qed.
+
+Theorem diss_direction_range : forall D k g, 0 <= diss_direction D k g < 360.
+Proof. exact diss_direction_range. Qed.
+
+(* the function handed to the solver: bulk input - target - dE/dt summed over the bins with positive
+   wind input ([mask_grid G T] keeps T[i,j] where G[i,j] > 0 and is 0 elsewhere); - target at U10 = 0;
+   an exception of the generation term is an exception of the balance *)
+Theorem balance_function_def : forall gen dedt g target u G,
+  u <> 0 -> gen u = Some G ->
+  balance_fn gen dedt g target u
+  = Some (integrate2 G (g_df g) (g_dth g) - target - integrate2 (mask_grid G dedt) (g_df g) (g_dth g)).
+Proof. exact balance_function_def. Qed.
+
+Theorem balance_function_at_zero : forall gen dedt g target,
+  balance_fn gen dedt g target 0 = Some (- target).
+Proof. exact balance_function_at_zero. Qed.
+
+Theorem balance_function_raises : forall gen dedt g target u,
+  u <> 0 -> gen u = None -> balance_fn gen dedt g target u = None.
+Proof. exact balance_function_raises. Qed.
+
+Theorem balance_function_no_dedt : forall gen dedt g target u G,
+  u <> 0 -> gen u = Some G -> Forall (Forall (fun v => v = 0)) dedt ->
+  balance_fn gen dedt g target u = Some (integrate2 G (g_df g) (g_dth g) - target).
+Proof. exact balance_function_no_dedt. Qed.
+
+(* a finite wind came from a converged run of the hybrid solver on that balance function, with last
+   step below 0.01 m/s (atol) and below 1.0 relative (rtol), and is non-negative for a non-negative
+   first guess *)
+Theorem inversion_converged_step : forall g p u d,
+  diss_bulk (p_diss p) g <> 0 ->
+  u10_from_spectra_point g false p = (Some u, d) ->
+  let F := balance_fn (p_gen p (diss_direction (p_diss p) (p_k p) g)) (p_dedt p) g (- diss_bulk (p_diss p) g) in
+  newton F driver_cfg (p_guess p) = Converged u /\
+  (exists xp, Rabs (u - xp) < 1 / 100 /\ Rabs (u - xp) / Rmax (Rabs xp) (1 / 100) < 1) /\
+  (0 <= p_guess p -> 0 <= u).
+Proof. exact inversion_converged_step. Qed.
+
+(* NaN rule: the wind is missing exactly when that run did not converge (exception of the balance
+   function, stationary point without a bracket, division by zero, iteration limit) *)
+Theorem inversion_nan_iff : forall g p,
+  diss_bulk (p_diss p) g <> 0 ->
+  let F := balance_fn (p_gen p (diss_direction (p_diss p) (p_k p) g)) (p_dedt p) g (- diss_bulk (p_diss p) g) in
+  fst (u10_from_spectra_point g false p) = None <-> (forall u, newton F driver_cfg (p_guess p) <> Converged u).
+Proof. exact inversion_nan_iff. Qed.
+
+(* batches: every member is computed from its own spectrum only *)
+Theorem inversion_batch_independent : forall g diriter ps i p0,
+  (i < length ps)%nat ->
+  nth i (u10_from_spectra g diriter ps) (u10_from_spectra_point g diriter p0)
+  = u10_from_spectra_point g diriter (nth i ps p0).
+Proof. exact inversion_batch_independent. Qed.
+
+Theorem inversion_batch_length : forall g diriter ps, length (u10_from_spectra g diriter ps) = length ps.
+Proof. exact inversion_batch_length. Qed.
+
+(* ---------------- the hybrid Newton solver (any function, any options) ---------------- *)
+
+(* Converged => the last step passed both tolerance tests *)
+Theorem solver_converged_step : forall f c guess x,
+  newton f c guess = Converged x ->
+  exists xp, Rabs (x - xp) < c_atol c /\ Rabs (x - xp) / Rmax (Rabs xp) (c_atol c) < c_rtol c.
+Proof. exact newton_converged_step. Qed.
+
+(* Converged => inside the hard bounds, provided the first bracket [guess -+ |guess|/2] is *)
+Theorem solver_converged_bounds : forall f c guess x,
+  newton f c guess = Converged x ->
+  in_lo (c_lo c) (guess - 1 / 2 * Rabs guess) -> in_hi (c_hi c) (guess + 1 / 2 * Rabs guess) ->
+  in_lo (c_lo c) x /\ in_hi (c_hi c) x.
+Proof. exact newton_converged_bounds. Qed.
+
+Theorem solver_driver_nonneg : forall f guess x,
+  0 <= guess -> newton f driver_cfg guess = Converged x -> 0 <= x.
+Proof. exact newton_driver_nonneg. Qed.
+
+(* bracket invariant: once f(lo) f(hi) < 0 holds in some pass it holds in every later pass, the
+   recorded values are the function values at the bracket ends, brackets are nested and the iterate
+   stays inside *)
+Theorem bracket_invariant : forall f c guess a b it s it' s',
+  f (guess - 1 / 2 * Rabs guess) = Some a -> f (guess + 1 / 2 * Rabs guess) = Some b ->
+  in_lo (c_lo c) (guess - 1 / 2 * Rabs guess) -> in_hi (c_hi c) (guess + 1 / 2 * Rabs guess) ->
+  reach f c 1 (init_state guess a b) it s -> reach f c it s it' s' ->
+  bnd s = true ->
+  bnd s' = true /\
+  f (rb0 s') = Some (fb0 s') /\ f (rb1 s') = Some (fb1 s') /\ fb0 s' * fb1 s' < 0 /\
+  rb0 s <= rb0 s' /\ rb0 s' <= x2 s' <= rb1 s' /\ rb1 s' <= rb1 s.
+Proof. exact bracket_invariant. Qed.
+
+(* a bracket with a sign change contains a root of a continuous function *)
+Theorem bracket_has_root : forall (g : R -> R) lo hi,
+  (forall x, lo <= x <= hi -> continuity_pt g x) -> lo <= hi -> g lo * g hi < 0 ->
+  exists z, lo <= z <= hi /\ g z = 0.
+Proof. exact bracket_has_root. Qed.
+
+(* Converged while the root is bracketed => the result lies in a bracket that contains a root *)
+Theorem solver_converged_near_root : forall (g : R -> R) c guess x,
+  (forall t, continuity_pt g t) ->
+  newton (fun t => Some (g t)) c guess = Converged x ->
+  in_lo (c_lo c) (guess - 1 / 2 * Rabs guess) -> in_hi (c_hi c) (guess + 1 / 2 * Rabs guess) ->
+  exists it s, (exists a b, reach (fun t => Some (g t)) c 1 (init_state guess a b) it s) /\
+    (bnd s = true -> exists z, g z = 0 /\ rb0 s <= z <= rb1 s /\ rb0 s <= x <= rb1 s /\
+                               Rabs (x - z) <= rb1 s - rb0 s).
+Proof. exact newton_converged_near_root. Qed.
+
+(* the run depends on the function only through its values; an exception of the function ends it *)
+Theorem solver_ext : forall f g c guess, (forall x, f x = g x) -> newton f c guess = newton g c guess.
+Proof. exact newton_ext. Qed.
+
+Theorem solver_raises : forall f c it s, f (x2 s) = None -> step f c it s = SFail FunRaise.
+Proof. exact step_raises. Qed.
+
+(* ---------------- non-vacuity ---------------- *)
+(* f(x) = x - 3 from the guess 3: first bracket [1.5,4.5] has a sign change, one pass converges;
+   the premises of the theorems above are met by concrete runs *)
+Example driver_cfg_first_bracket_ok : forall guess, 0 <= guess ->
+  in_lo (c_lo driver_cfg) (guess - 1 / 2 * Rabs guess) /\ in_hi (c_hi driver_cfg) (guess + 1 / 2 * Rabs guess).
+Proof. exact driver_first_bracket_ok. Qed.
+
+Example linear_run_converges : exists x, newton (fun t => Some (t - 3)) driver_cfg 3 = Converged x /\ Rabs (x - 3) < 1 / 100.
+Proof. exact linear_run_converges. Qed.
